@@ -265,6 +265,143 @@ def misuse_programs(tier, seed):
     return [("routing", dict(prog=p, expect_ok=1, n=(3 if i % 2 else 2))) for i, p in enumerate(progs)]
 
 
+def reference_verdict(prog):
+    """Reference predicate for C15, written from the property statement (not from the code): returns
+    (valid, set of error kinds that name a defect present in the call sequence)."""
+    items = [i.strip() for i in prog.split(";") if i.strip()]
+    kinds = set()
+    names = []
+    funcs = 0
+    used = set()
+    have_x = have_init = False
+    prev_is_function = False
+
+    def lst(s):
+        return [x.replace("%2C", ",") for x in s.split(",")] if s else []
+    for it in items:
+        parts = it.split(":")
+        head = parts[0]
+        base = head.split("@")[0].split("~")[0]
+        ar = None
+        if "@" in head:
+            ar = int(head.split("@")[1].split("~")[0])
+        if base == "P":
+            names = lst(parts[1] if len(parts) > 1 else "")
+            if not names:
+                kinds.add("EmptyParameters")
+            if len(set(names)) != len(names):
+                kinds.add("DuplicateParameterNames")
+            if any("," in n for n in names):
+                kinds.add("CommaInParameterNameNotAllowed")
+            prev_is_function = False
+        elif base == "F":
+            funcs += 1
+            fp = lst(parts[1] if len(parts) > 1 else "")
+            arity = ar if ar is not None else len(fp)
+            ds = lst(parts[2] if len(parts) > 2 else "")
+            ok_fn = True
+            if not fp:
+                kinds.add("EmptyParameters")
+                ok_fn = False
+            if len(set(fp)) != len(fp):
+                kinds.add("DuplicateParameterNames")
+                ok_fn = False
+            if any("," in n for n in fp):
+                kinds.add("CommaInParameterNameNotAllowed")
+                ok_fn = False
+            if any(n not in names for n in fp):
+                kinds.add("FunctionParameterNotInModel")
+                ok_fn = False
+            if arity != len(fp):
+                kinds.add("IncorrectParameterCount")
+                ok_fn = False
+            seen = []
+            for d in ds:
+                dn = d.split("@")[0].split("~")[0]
+                da = int(d.split("@")[1].split("~")[0]) if "@" in d else arity
+                if dn not in fp or dn not in names:
+                    kinds.add("InvalidDerivative")
+                elif dn in seen:
+                    kinds.add("DuplicateDerivative")
+                if da != len(fp):
+                    kinds.add("IncorrectParameterCount")
+                seen.append(dn)
+            if any(n not in seen for n in fp):
+                kinds.add("MissingDerivative")
+            used.update(n for n in fp if n in names)
+            prev_is_function = True
+            continue
+        elif base == "I":
+            funcs += 1
+            prev_is_function = False
+        elif base == "D":
+            if not prev_is_function:
+                kinds.add("IllegalCallToPartialDeriv")
+            continue
+        elif base == "X":
+            have_x = True
+            prev_is_function = False
+        elif base == "XP":
+            have_init = True
+            n = int(parts[1]) if len(parts) > 1 else len(names)
+            if n != len(names):
+                kinds.add("IncorrectParameterCount")
+            prev_is_function = False
+    if funcs == 0:
+        kinds.add("EmptyModel")
+    if any(n not in used for n in names):
+        kinds.add("UnusedParameter")
+    if not have_x:
+        kinds.add("MissingX")
+    if not have_init:
+        kinds.add("MissingInitialParameters")
+    return (not kinds, kinds)
+
+
+def systematic_sequences(tier, seed):
+    """every sequence of 1..3 functions over ordered subsets (size 1..2) of 2..3 model parameters, with complete
+    derivative lists: valid iff every model parameter is used (reference predicate); plus single-defect mutants."""
+    import random
+    rng = random.Random(77 + seed)
+    out = []
+    for L in (2, 3):
+        names = NAMES[:L]
+        choices = [list(c) for r in (1, 2) for c in itertools.permutations(names, r)]
+        seqs = [[c] for c in choices] + [[a, b] for a in choices for b in choices]
+        triples = [[a, b, c] for a in choices for b in choices for c in choices]
+        if tier == "quick":
+            seqs = [q for q in seqs if rng.random() < (1.0 if L == 2 else 0.5)]
+            triples = rng.sample(triples, min(len(triples), 90 if L == 3 else 40))
+        seqs += triples
+        for fl in seqs:
+            items = [_func(f, f[::-1] if (len(f) + len(fl)) % 2 else f) for f in fl]
+            if rng.random() < 0.3:
+                items.insert(rng.randrange(len(items) + 1), "I")
+            prog = _prog(names, items, x_first=rng.random() < 0.5, init_pos=rng.choice(["start", "end"]))
+            out.append(prog)
+            # single-defect mutants of a sample
+            if rng.random() < (0.15 if tier == "quick" else 0.4):
+                f = rng.choice(fl)
+                mut = rng.choice(["drop", "dup", "foreign", "arity"])
+                if mut == "drop":
+                    bad = _func(f, f[1:])
+                elif mut == "dup":
+                    bad = _func(f, f + [f[0]])
+                elif mut == "foreign":
+                    other = [n for n in names if n not in f]
+                    bad = _func(f, f + [other[0]]) if other else _func(f, f + ["zz"])
+                else:
+                    bad = _func(f, arity=len(f) + 1)
+                items2 = list(items)
+                items2[rng.randrange(len(items2))] = bad
+                out.append(_prog(names, items2))
+    res = []
+    for prog in out:
+        ok, kinds = reference_verdict(prog)
+        res.append(("routing", dict(prog=prog, expect_ok=1 if ok else 0, allowed=",".join(sorted(kinds)))))
+    return res
+
+
 def builder_sequences(tier, seed):
     """C15: call sequences with known defects and the error kinds that name a defect actually present"""
     S = []
@@ -351,13 +488,15 @@ def builder_sequences(tier, seed):
 def relpar_cfgs(tier, seed):
     u, v = seeds(seed)
     C = []
-    for (threads, kw) in [(1, dict(n=3, m=2, s=1, p=2, w="diag")), (2, dict(n=3, m=2, s=2, p=2, w="diag", mrhs=1)), (4, dict(n=3, m=2, s=1, p=2, w="none", eps="sym")),
+    for (threads, kw) in [(1, dict(n=3, m=2, s=1, p=2, w="diag")), (2, dict(n=3, m=2, s=3, p=2, w="diag", mrhs=1, maxpaths=16)), (4, dict(n=3, m=2, s=1, p=2, w="none", eps="sym")),
+                          (3, dict(n=2, m=2, s=5, p=1, w="none", mrhs=1, maxpaths=8)),
                           (16, dict(n=3, m=2, s=2, p=2, w="diag", mrhs=1, deriv_fail=1)), (3, dict(n=2, m=1, s=1, p=1, w="diag", real_svd=1))]:
         d = dict(useed=u, vseed=v, threads=threads)
         d.update(kw)
         C.append(("relpar", d))
     if tier == "thorough":
         for threads in (1, 2, 3, 4, 8, 16):
+            C.append(("relpar", dict(n=3, m=2, s=3 + threads % 3, p=1, w="diag", mrhs=1, useed=u, vseed=v, threads=threads, maxpaths=16)))
             C.append(("relpar", dict(n=4, m=2, s=2, p=2, w="diag", mrhs=1, useed=v, vseed=u, threads=threads)))
             C.append(("relpar", dict(n=4, m=3, s=1, p=2, w="diag", useed=u + 1, vseed=v + 1, threads=threads, eps="neg")))
     return C
@@ -372,7 +511,7 @@ R_PROPS.update({
     "C12": dict(check_divisors=False, prefixes=["C12"], cfgs=lambda t, s: stats_cfgs(t, s, {"ident", "guard"}), twins=[("stats", dict(n=4, m=2, p=1, w="diag", twin=1))]),
     "C13": dict(check_divisors=False, prefixes=["C13"], cfgs=lambda t, s: stats_cfgs(t, s, {"ident"}), twins=[("stats", dict(n=4, m=2, p=1, w="diag", twin=1))]),
     "C14": dict(check_divisors=False, prefixes=["C14"], cfgs=lambda t, s: stats_cfgs(t, s, {"ident"}), twins=[("stats", dict(n=4, m=2, p=1, w="diag", twin=1))]),
-    "C15": dict(prefixes=["C15", "C16"], cfgs=lambda t, s: builder_sequences(t, s), twins=[("routing", dict(prog="P:a,b;F:b,a:a,b;X;XP", twin=1))]),
+    "C15": dict(prefixes=["C15", "C16"], cfgs=lambda t, s: builder_sequences(t, s) + systematic_sequences(t, s), twins=[("routing", dict(prog="P:a,b;F:b,a:a,b;X;XP", twin=1))]),
     "C16": dict(prefixes=["C16"], cfgs=lambda t, s: routing_programs(t, s), twins=[("routing", dict(prog="P:a,b;F:b,a:a,b;X;XP", twin=1))]),
     "C17": dict(prefixes=["C17", "C16"], cfgs=lambda t, s: misuse_programs(t, s) + routing_programs("quick", s)[:12], twins=[("routing", dict(prog="P:a,b;F:b,a:a,b;X;XP", twin=1))]),
     "C18": dict(prefixes=["C18", "C01.coefficients_present", "C02.residuals", "SVD"], want={"basic", "order", "par"}),
